@@ -319,18 +319,20 @@ fn leaf_key(sel: &Selector) -> Option<Vec<i64>> {
 /// The stored form of a complex target (the subselector vector with its internal ranged
 /// selectors, as `Annotation::target()` exposes it) and what iterating over it yields, in the
 /// stored order. None for simple targets and empty slots.
-pub fn obs_stored(store: &AnnotationStore, h: usize) -> Option<(Sx, Sx)> {
+pub fn obs_stored(store: &AnnotationStore, h: usize) -> Option<(Sx, Sx, i64)> {
     guard(|| {
         let ann = store.annotation(AnnotationHandle::new(h))?;
         let target = ann.as_ref().target();
-        let subs = match target {
-            Selector::MultiSelector(v) | Selector::CompositeSelector(v) | Selector::DirectionalSelector(v) => v,
+        let (subs, kind) = match target {
+            Selector::MultiSelector(v) => (v, 1),
+            Selector::CompositeSelector(v) => (v, 2),
+            Selector::DirectionalSelector(v) => (v, 3),
             _ => return None,
         };
         let enc = |v: Vec<Vec<i64>>| l(v.into_iter().map(|k| l(k.into_iter().map(a).collect())).collect());
         let stored: Vec<Vec<i64>> = subs.iter().map(|s| leaf_key(s).unwrap_or(vec![9, 0, 0, 0, 0])).collect();
         let expanded: Vec<Vec<i64>> = target.iter(store, false).filter_map(|s| leaf_key(s.as_ref())).collect();
-        Some((enc(stored), enc(expanded)))
+        Some((enc(stored), enc(expanded), kind))
     })
     .flatten()
 }
